@@ -210,6 +210,10 @@ def run(ctx):
         x = np.array([[rng.randrange(nsym) for _ in range(nc)] for _ in range(nr)])
         if rng.random() < 0.4:           # what the selection configurations feed: a tiling of the candidates
             x = np.resize(np.arange(nsym), nr * nc).reshape(nr, nc)
+        if t % 3 == 1:
+            # the entries are arbitrary labels: negative and large values, other integer widths
+            x = (x - rng.randrange(1, nsym + 1)) * rng.choice([1, 1, 7, 1000])
+            x = x.astype(rng.choice(["int64", "int32", "int16"]))
         plan.append(x)
     for x in plan:
         nr, nc = x.shape
